@@ -1,5 +1,6 @@
 import ShootVerif.Proofs.RestSend
 import ShootVerif.Proofs.RestParse
+import ShootVerif.Proofs.RestKV
 /-!
 C06 — rest: each call sends exactly the request its directive describes.
 
@@ -47,6 +48,42 @@ theorem C06_parse_roundtrip (v : Verb) (vt p tail rest : List Char) (quoted : Bo
 
 /-- the placeholders are exactly the `{name}` tokens and cutting the path into tokens loses nothing -/
 theorem C06_tokens_lossless (p : List Char) : renderToks (tokenize p) = p := renderToks_tokenize p
+
+/-! ## The other recognisers: a directive written in the documented form means what it says
+
+(`CleanKey`: non-empty, letters/digits/`_`/`-`/`|`; `CleanVal`: starts with a word character, no `}`,
+no newline; the texts between groups are free of `{`.) -/
+
+/-- `{k₁:v₁} j₁ {k₂:v₂} j₂ …` after any brace-free text reads as the pairs, in order -/
+theorem C06_kv_roundtrip (pre : List Char) (gs : List ((List Char × List Char) × List Char))
+    (hpre : NoOpenBrace pre) (hg : GroupsClean gs) :
+    parseKV (pre ++ renderGroups gs) = gs.map (·.1) := parseKV_render pre gs hpre hg
+
+/-- `shoot: alias={p₁:a₁},{p₂:a₂}` (optional `;…` tail) reads as the pairs (pᵢ, aᵢ) -/
+theorem C06_alias_roundtrip (gs : List ((List Char × List Char) × List Char)) (tail rest : List Char)
+    (hg : GroupsClean gs) (hne : gs ≠ [])
+    (hsep : ∀ g ∈ gs, ∀ c ∈ g.2, c ≠ ';' ∧ c ≠ '\n') (hval : ∀ g ∈ gs, ∀ c ∈ g.1.2, c ≠ ';')
+    (ht : tail = [] ∨ ∃ t, tail = ';' :: t) :
+    parseAlias (shootColon ++ ' ' :: (aliasEq ++ renderGroups gs ++ tail ++ '\n' :: rest)) = some (gs.map (·.1)) :=
+  parseAlias_render gs tail rest hg hne hsep hval ht
+
+/-- … also below other doc lines: a line at which the alias pattern does not match is passed over -/
+theorem C06_alias_skip_line (l d : List Char) (hl : ∀ c ∈ l, c ≠ '\n')
+    (hf : matchAliasAt (l ++ '\n' :: d) = none) : parseAlias (l ++ '\n' :: d) = parseAlias d :=
+  parseAlias_skip_line l d hl hf
+
+/-- `shoot: headers={K₁:v₁},{K₂:v₂}` continued over any number of lines that start with `{` reads as
+    all the pairs, in order, and ends where the next line does not continue it -/
+theorem C06_headers_roundtrip (w0 : List Char) (gs : List ((List Char × List Char) × List Char)) (ls : HLines)
+    (stop : List Char)
+    (hw0 : Blanks w0) (hg : HLineOK gs) (hls : HLinesOK ls) (hstop : hdrIter ('\n' :: stop) = none) :
+    parseHeaders (shootColon ++ ' ' :: (headersEq ++ (w0 ++ renderGroups gs ++ (contText ls ++ '\n' :: stop))))
+      = gs.map (·.1) ++ linePairs ls := parseHeaders_render w0 gs ls stop hw0 hg hls hstop
+
+/-- `alias=w` in the value of the `shoot` struct tag reads as `w` -/
+theorem C06_field_alias_roundtrip (pre w rest : List Char) (hpre : ∀ c ∈ pre, c ≠ 'a')
+    (hw : w ≠ [] ∧ ∀ c ∈ w, isWord c = true) (hrest : ∀ c ∈ rest.head?, isWord c = false) :
+    parseFieldAlias (pre ++ aliasEq ++ w ++ rest) = w := parseFieldAlias_render pre w rest hpre hw hrest
 
 /-- headline: the header set of a generated method. For every verb and every interface-level header
     list: the value under a key is the directive's (last) value for it, else the verb's default; and no
@@ -329,6 +366,15 @@ example :
     (callSpec s "B" args).bind Outcome.path? = some "/b/7".toList := by decide
 
 /-! non-vacuity of the recogniser theorems -/
+example : parseAlias "shoot: Get(\"/u/{id}\")\nshoot: alias={userID:id},{pageSize:size}; note\n".toList
+    = some [("userID".toList, "id".toList), ("pageSize".toList, "size".toList)] := by decide
+example : matchAliasAt "shoot: Get(\"/u/{id}\")\nshoot: alias={userID:id}\n".toList = none := by decide
+example : parseHeaders "shoot: headers={Authorization:Bearer abc},\n  {X-Env:test},{A:1}\n{B:2}\nshoot: Get(/x)\n".toList
+    = [("Authorization".toList, "Bearer abc".toList), ("X-Env".toList, "test".toList), ("A".toList, ['1']), ("B".toList, ['2'])] := by decide
+example : hdrIter "\nshoot: Get(/x)\n".toList = none := by decide
+example : parseFieldAlias "x,alias=page_idx;y".toList = "page_idx".toList := by decide
+example : parseKV "{k: */*}".toList = [(['k'], ['*'])] ∧
+    parseKV "x{a-b|c :: v w },{k:}y}".toList = [("a-b|c".toList, "v w ".toList), (['k'], ['y'])] := by decide
 example : parsePath ("shoot: Get(\"/users/{id}\")\nshoot: alias={userID:id}\n".toList)
     = .ok ⟨.get, "/users/{id}".toList, ["id".toList]⟩ := by decide
 example : parsePath ("shoot: pAtCh(/a b/{x}/{y_1}) ; \n".toList)
